@@ -369,10 +369,88 @@ def h_assign_alias(bi: int, v: int, mut: int, same_session: bool):
     assert r[0]
 
 
+# ------------------------------------------------------------------------------------------------ E4: clone of a job that contains symbolic links
+def _clone_links_case(lk, nested, then):
+    """Project.clone on the real file system, job payload with a symbolic link (absolute into the job itself / relative / to a file
+    outside the project / dangling): the copy is identical as DATA (what reading every path yields) and INDEPENDENT - writing through
+    any path of the copy, or removing / re-keying the source afterwards, never changes what the other one reads"""
+    import os, shutil
+    import signac
+    from vflib import synclib as SL
+    problems = []
+
+    def read_all(root):
+        out = {}
+        for dp, dn, fn in os.walk(root):
+            for n in fn + [d for d in dn if os.path.islink(os.path.join(dp, d))]:
+                p = os.path.join(dp, n)
+                rel = os.path.relpath(p, root)
+                try:
+                    with open(p, "rb") as f:
+                        out[rel] = f.read()
+                except OSError as e:
+                    out[rel] = ("unreadable", e.errno)
+        return out
+
+    with SL.Scratch() as sc:
+        a = signac.init_project(os.path.join(sc.root, "A"))
+        b = signac.init_project(os.path.join(sc.root, "B"))
+        src = a.open_job({"x": 1}).init()
+        src.document["d"] = 1
+        sub = "sub/" if nested else ""
+        SL.put(src.fn(sub + "run_2.txt"), b"RUN2", SL.T_MID)
+        SL.put(os.path.join(sc.root, "outside.txt"), b"OUTSIDE", SL.T_MID)
+        target = [src.fn(sub + "run_2.txt"), "run_2.txt", os.path.join(sc.root, "outside.txt"), "nowhere"][lk]
+        os.symlink(target, src.fn(sub + "latest.txt"))
+        before_src = read_all(src.path)
+        try:
+            dst = b.clone(src)
+        except Exception as e:  # noqa
+            # refusing is acceptable (a dangling link cannot be copied as data) - but nothing half-made may stay behind
+            if os.path.exists(os.path.join(b.workspace, src.id)):
+                problems.append(("clone raised but left a directory behind", type(e).__name__))
+            return problems
+        if lk == 3:
+            return problems
+        got = read_all(dst.path)
+        if got != before_src:
+            problems.append(("the clone does not read like the source", sorted(k for k in set(got) | set(before_src) if got.get(k) != before_src.get(k))))
+        if then == 0:
+            # write through every path of the clone
+            for rel in list(got):
+                with open(os.path.join(dst.path, rel), "wb") as f:
+                    f.write(b"CHANGED-IN-CLONE")
+            if read_all(src.path) != before_src:
+                problems.append(("writing through the clone changed what the source job reads", sorted(k for k, v in read_all(src.path).items() if before_src.get(k) != v)))
+            with open(os.path.join(sc.root, "outside.txt"), "rb") as f:
+                if f.read() != b"OUTSIDE":
+                    problems.append(("writing through the clone changed a file outside both projects",))
+        elif then == 1:
+            src.remove()
+            if read_all(dst.path) != before_src:
+                problems.append(("removing the source changed what the clone reads",))
+        else:
+            src.statepoint["x"] = 2
+            if read_all(dst.path) != before_src:
+                problems.append(("re-keying the source changed what the clone reads",))
+    return problems
+
+
+def h_clone_links(lk: int, nested: bool, then: int):
+    assert 0 <= lk <= 3 and 0 <= then <= 2
+    fresh_path()
+    lk, nested, then = ci(lk, 0, 3), cb(nested), ci(then, 0, 2)
+    with nt():
+        problems = _clone_links_case(lk, nested, then)
+    reached()
+    assert not problems
+
+
 HARNESSES = [
     dict(name="h_assign_alias", timeout=(300, 600)),
     dict(name="h_rekey", twin="h_rekey__reach", timeout=(600, 1500), parts=(11, 11)),
     dict(name="h_move_clone", timeout=(400, 900), parts=(4, 4)),
+    dict(name="h_clone_links", timeout=(300, 600), unblock=True),
     dict(name="h_update_sp", timeout=(300, 600)),
 ]
 
